@@ -60,6 +60,8 @@ func runC09(c *Ctx) {
 	ruleKeyBinding(c, "R9.4")
 	ruleSignedCoverage(c, "R9.5")
 	ruleStateReadsAreCopies(c, "R9.6")
+	ruleUnverifiedPacketDecidesNothing(c, "R9.7")
+	ruleProposalValidation(c, "R9.8") // a proposal is taken from its claimed leader only for the epoch that follows the node's own
 }
 
 // verifyMessage: nil only after AuthScheme.Verify succeeded on messageForSigning(beaconID, packet, proposal) with the
@@ -738,4 +740,47 @@ func ruleStateReadsAreCopies(c *Ctx, rule string) {
 			ifStr(bad != "", "the returned state can be an object the store keeps ("+bad+"): callers that update it before saving change what every later reader sees"))
 	}
 	c.Floor(rule, "state readers of the DKG store", n, 2)
+}
+
+// R9.7: until its signature has been verified, what a packet says decides nothing. In applyPacketToState no branch taken
+// before the verifyMessage call tests a value read from the packet: the packet is only handed to Apply (whose result is
+// what gets verified) and to verifyMessage itself. In particular the state the packet is applied to (current, last
+// finished, or fresh) is chosen from the node's own records alone.
+func ruleUnverifiedPacketDecidesNothing(c *Ctx, rule string) {
+	c.ranRules[rule] = true
+	fn := c.P.Fn("internal/dkg.(*Process).applyPacketToState")
+	if !c.Anchor(rule, "internal/dkg.(*Process).applyPacketToState", fn != nil) {
+		return
+	}
+	verify := callTo(fn, "internal/dkg.Process).verifyMessage")
+	if !c.Anchor(rule, "verifyMessage call in applyPacketToState", verify != nil) {
+		return
+	}
+	var pkt *ssa.Parameter
+	for _, p := range fn.Params {
+		if strings.HasSuffix(typeShort(p.Type()), "GossipPacket") {
+			pkt = p
+		}
+	}
+	if !c.Anchor(rule, "packet parameter of applyPacketToState", pkt != nil) {
+		return
+	}
+	n := 0
+	for _, b := range fn.Blocks {
+		if b != verify.Block() && verify.Block().Dominates(b) {
+			continue
+		}
+		if len(b.Instrs) == 0 {
+			continue
+		}
+		iff, ok := b.Instrs[len(b.Instrs)-1].(*ssa.If)
+		if !ok {
+			continue
+		}
+		n++
+		fromPacket := hasOrigin(Origins(iff.Cond), func(o Origin) bool { return o.Val == ssa.Value(pkt) })
+		c.Ok(rule, "branch before the packet is verified does not test the packet", shortPos(c.P, iff), !fromPacket,
+			"condition "+trimTemps(pathOf(iff.Cond))+ifs(fromPacket, " reads the unverified packet", " reads the node's own records or an error"))
+	}
+	c.Floor(rule, "branches of applyPacketToState before verification", n, 5)
 }
